@@ -185,7 +185,10 @@ func (r *Reconciler) reconcileInitialize(ctx context.Context, transaction *confi
 					if err := r.updateTransactionStatus(ctx, transaction); err != nil {
 						return controller.Result{}, err
 					}
-					return controller.Result{}, nil
+					// The next transaction may be waiting for this one to finish initializing
+					return controller.Result{
+						Requeue: controller.NewID(transaction.Index + 1),
+					}, nil
 				}
 
 				switch targetDetails := targetTransaction.Details.(type) {
@@ -242,7 +245,10 @@ func (r *Reconciler) reconcileInitialize(ctx context.Context, transaction *confi
 					if err := r.updateTransactionStatus(ctx, transaction); err != nil {
 						return controller.Result{}, err
 					}
-					return controller.Result{}, nil
+					// The next transaction may be waiting for this one to finish initializing
+					return controller.Result{
+						Requeue: controller.NewID(transaction.Index + 1),
+					}, nil
 				}
 			}
 			transaction.Status.Proposals = proposals
